@@ -127,6 +127,10 @@ func (pdb *pgDb) stop(ctx context.Context) error {
 
 func (pdb *pgDb) Abort(ctx context.Context) {
 	logg.InfoCtxf(ctx, "aborting tx", "tx", pdb.tx)
+	pdb.multi = false
+	if pdb.tx == nil {
+		return
+	}
 	pdb.tx.Rollback(ctx)
 	pdb.tx = nil
 }
